@@ -1735,7 +1735,8 @@ func (n *node) Creation() int64 {
 func (n *node) sendExitMessage(from gen.PID, to gen.PID, message any) error {
 	// a process that is still in its ProcessInit callback can be linked already
 	// (it is looked up first: spawn registers the process before it takes it out of there)
-	value, loaded := n.initializing.Load(to)
+	value, initializing := n.initializing.Load(to)
+	loaded := initializing
 	if loaded == false {
 		value, loaded = n.processes.Load(to)
 	}
@@ -1759,6 +1760,13 @@ func (n *node) sendExitMessage(from gen.PID, to gen.PID, message any) error {
 	}
 
 	atomic.AddUint64(&p.messagesIn, 1)
+	if initializing {
+		if _, still := n.initializing.Load(to); still {
+			// spawn runs the process when it has registered it (and taken it out
+			// of there). It must not be run, and terminate, before that
+			return nil
+		}
+	}
 	p.run()
 	return nil
 }
